@@ -417,7 +417,7 @@ Proof.
   eapply forallb_norm_entries; [|exact F]. intros k v _ C Nn. unfold ert_clause in *. cbn [fst snd] in *.
   apply andb_prop in C. destruct C as [M C]. rewrite M. cbn [andb].
   destruct (String.eqb k "log-level").
-  - destruct v; try discriminate C; try discriminate Nn. reflexivity.
+  - destruct v; try discriminate C; try discriminate Nn; reflexivity.
   - now apply opt_ft_ok_nv.
 Qed.
 
